@@ -15,18 +15,26 @@ LEVEL_TEXT = ("Proved in Coq over the model of state.rs + GroupCrdt::process (al
               "whoever is known in any group of any reachable state was introduced by an accepted create/add of that group "
               "(C33_members_only_via_add_or_create). PARTIAL: the StrongRemove resolver is not modelled; the model is exact for conflict-free histories "
               "(no remove/demote concurrent with an operation by, or a re-add of, the removed member), which the model decides per case. "
-              "The model is tied to the code on every run: random concurrent histories on the real GroupCrdt, comparing outcome, resolved dependencies, "
+              "Also proved: the decision depends only on the states stored for the declared dependencies; operations processed in between that are not "
+              "declared dependencies (concurrent branches) change neither the decision nor the state it is judged in (C33_concurrent_branches_irrelevant). "
+              "The model is tied to the code on every run: random concurrent histories on the real GroupCrdt (dependencies = heads, strict subsets of the heads, other antichains), comparing outcome, resolved dependencies, "
               "raw member states (counters, levels) at the dependencies and of every group after every operation, and the heads.")
 LEVEL_NOTE = ("Trusted: Coq kernel + vm_compute; hand-written model; harness/python glue. Correspondence is differential testing. "
               "Fixed finding noop_promote_demote_unchecked (fix commit in p2panda-auth state.rs).")
 ASSUMPTIONS = ["members are individuals (no nested groups), conditions are () and never set",
-               "histories stay in the conflict-free fragment where the StrongRemove filter is empty (decided by the model per case; steps after leaving it are not judged)",
-               "operations arrive after their dependencies (dependencies are heads of earlier replica states)"]
+               "histories stay in the conflict-free fragment where the StrongRemove filter is empty (decided by the model per case; the operation that leaves it is still judged - decision, dependencies, state at the dependencies - the steps after it are not)",
+               "operations arrive after their dependencies (declared dependencies are any set of earlier operations: all heads, subsets of the heads, other antichains; a dependency on a rejected operation is StatesNotFound in code and model)"]
 TRUSTED = ["modelled not verified: StrongRemove resolver (outside the conflict-free fragment), nested groups, petgraph, HashMap/HashSet as lists"]
-RULE = ("3 re-create cases (open finding); 150 (quick) / all 294 (thorough) systematic cases; 350 (quick) / 1200 (thorough) random histories over 1-2 groups, 4-5 members plus 2 never-added outsiders: create, then 6-14 (quick) / 10-30 (thorough) operations "
-        "add/remove/promote/demote/re-submit by managers, lower members, removed members and outsiders; dependencies = current heads or the heads "
-        "after an earlier operation (concurrency); plus a systematic family: every kind of unauthorised author x every action on a fixed group. "
-        "non-trivial = at least one accepted non-create operation and at least one rejected operation")
+RULE = ("3 re-create cases (open finding); 8 fixed strict-subset cases (author manager in one of two concurrent branches only, dependencies = the other "
+        "branch / its own / both / the fork); 120 (quick) / all 294 (thorough) systematic cases: every kind of unauthorised author x every action on a "
+        "fixed group; 220 (quick) / 1000 (thorough) branch histories: create, 2-4 concurrent branches of accepted operations that give actors "
+        "branch-local authority (added / promoted / demoted / removed in one branch only, conflict-free), then 3-6 / 5-12 operations by those actors, "
+        "managers and outsiders whose declared dependencies are a random non-empty (mostly strict) subset of the current heads, an antichain with one "
+        "operation per chosen branch (tips or inner operations), the fork, or all heads; 250 (quick) / 1200 (thorough) random histories over 1-2 groups, "
+        "4-5 members plus 2 never-added outsiders: create, then 6-14 / 10-30 operations add/remove/promote/demote/re-submit; dependencies = current "
+        "heads, the heads after an earlier operation, or a random subset of the current heads. "
+        "non-trivial = at least one accepted non-create operation and at least one rejected operation; the evidence also counts operations whose "
+        "author is a manager only in the merged current state / only at the declared dependencies")
 SEARCH_LIMIT = 600
 NONTRIVIAL_FLOOR = 30
 
@@ -67,7 +75,8 @@ def random_history(rng, tier):
     while len(ops) < n:
         i = len(ops)
         g = rng.randrange(ng)
-        depref = -1 if rng.random() < 0.75 else rng.randrange(max(0, i - 4), i)
+        r = rng.random()
+        depref = -1 if r < 0.70 else (rng.randrange(max(0, i - 4), i) if r < 0.90 else HEADSUB + rng.randint(1, 7))
         if g not in created and rng.random() < 0.8:
             ops.append(op(rng.randrange(nm), g, depref, "create", init=init_members()))
             created.add(g)
@@ -83,6 +92,120 @@ def random_history(rng, tier):
         else:
             ops.append(op(author, g, depref, kind, target, rng.choice([0, 1, 2, 3, 3])))
     return {"nm": total, "ng": ng, "ops": ops}
+
+
+HEADSUB = 1000        # depref HEADSUB + m: the sorted current heads selected by the bits of m
+EXPLICIT = 1 << 32    # depref EXPLICIT + m: exactly the operations j with bit j of m set
+
+
+def expl(ids):
+    return EXPLICIT + sum(1 << j for j in set(ids))
+
+
+def branch_history(rng, tier):
+    """Concurrent branches with branch-local authority, then operations that declare arbitrary
+    non-empty subsets of the heads / antichains over the branches as their dependencies.
+
+    create by manager 0; optional common prefix; k = 2..4 branches forked at the same operation,
+    each a chain of 1..3 operations that are accepted by construction (authored by manager 0, by
+    manager 1 if it was created as one, or by somebody made manager earlier in the same branch):
+    add a fresh actor (often with manage), promote/demote/remove an initial lower member that
+    never authors anything in the branches.  So an actor's authority differs per branch
+    (added / promoted / demoted / removed in one branch only; the same actor may be added with
+    different levels in two branches).  All of this is conflict-free (nobody removed or demoted
+    authors or is re-added concurrently).  Then probes by those actors, the managers and
+    outsiders with dependencies = a strict or full subset of the current heads, an antichain
+    with one operation (not necessarily the tip) from some of the branches, the fork, or all
+    heads."""
+    total = 9
+    quick = tier == "quick"
+    lows = [2, 3]                       # initial lower members: never author branch operations
+    init = [(0, 3)]
+    solid = [0]
+    if rng.random() < 0.5:
+        init.append((1, 3))
+        solid.append(1)
+    for m in lows:
+        init.append((m, rng.choice([0, 1, 2])))
+    fresh = [m for m in range(1, total - 1) if m not in [x for x, _ in init]]   # total-1 stays an outsider
+    ops = [op(0, 0, -1, "create", init=init)]
+    for _ in range(rng.choice([0, 0, 1])):
+        ops.append(op(0, 0, -1, "add", rng.choice(fresh), rng.choice([1, 2, 3])))
+    fork = len(ops) - 1
+    k = rng.choice([2, 2, 3, 3, 4])
+    lens = [rng.randint(1, 2 if quick else 3) for _ in range(k)]
+    chains = [[] for _ in range(k)]      # operation numbers per branch
+    managers = [list(solid) for _ in range(k)]
+    gone = [set() for _ in range(k)]     # removed in this branch
+    order = [b for b in range(k) for _ in range(lens[b])]
+    rng.shuffle(order)
+    special = []                         # actors whose authority is branch-local
+    prefix_added = {ops[j][4] for j in range(1, fork + 1)}
+    for b in order:
+        dep = expl([chains[b][-1] if chains[b] else fork])
+        author = rng.choice(managers[b])
+        active_here = set(managers[b]) | prefix_added | {ops[j][4] for j in chains[b] if ops[j][3] == 1}
+        low = rng.choice([m for m in lows if m not in gone[b]] or [None])
+        r = rng.random()
+        cand = None
+        if r < 0.6:
+            t = rng.choice(fresh)
+            lv = rng.choice([3, 3, 3, 2, 1, 0])
+            if t not in active_here:     # adding an active member would be rejected
+                cand = op(author, 0, dep, "add", t, lv)
+                if lv == 3:
+                    managers[b].append(t)
+                special.append(t)
+        elif low is not None:
+            if r < 0.8:
+                cand = op(author, 0, dep, "promote", low, 3)
+            elif r < 0.9:
+                cand = op(author, 0, dep, "demote", low, 0)
+            else:
+                cand = op(author, 0, dep, "remove", low)
+                gone[b].add(low)
+            special.append(low)          # lows never author branch operations themselves
+        if cand is None:
+            cand = op(author, 0, dep, "promote", 0, 3)   # no-op promote of manager 0: accepted
+        chains[b].append(len(ops))
+        ops.append(cand)
+    nprobe = rng.randint(3, 6) if quick else rng.randint(5, 12)
+    special = special or [1]
+    for _ in range(nprobe):
+        r = rng.random()
+        if r < 0.5:
+            depref = HEADSUB + rng.randint(1, 15)
+        elif r < 0.85:
+            bs = [b for b in range(k) if rng.random() < 0.5] or [rng.randrange(k)]
+            if len(bs) == k and rng.random() < 0.5:
+                bs = bs[1:]
+            depref = expl([rng.choice(chains[b]) for b in bs])
+        elif r < 0.92:
+            depref = expl([fork])
+        else:
+            depref = -1
+        r = rng.random()
+        author = rng.choice(special) if r < 0.7 else (rng.choice(solid) if r < 0.85 else rng.randrange(total))
+        kind = rng.choice(["add"] * 5 + ["promote"] * 3 + ["remove", "demote"])
+        target = rng.choice(fresh + special + [total - 1]) if kind == "add" else rng.randrange(total)
+        if kind == "remove" and rng.random() < 0.3:
+            target = author
+        ops.append(op(author, 0, depref, kind, target, rng.choice([0, 1, 2, 3, 3])))
+    return {"nm": total, "ng": 1, "ops": ops}
+
+
+def subset_family():
+    """fixed: create(0) -> {0 adds 1 manage | 0 adds 2 read} concurrently; member 1 (manager in
+    one branch only) adds 3 declaring the other branch / its own / both / the fork; the same for
+    a promote in one branch only.  The first one is the witness of seeded change C33-1."""
+    for deps in ([2], [1], [1, 2], [0]):
+        yield {"nm": 5, "ng": 1, "ops": [op(0, 0, -1, "create", init=[(0, 3)]),
+                                          op(0, 0, -1, "add", 1, 3), op(0, 0, 0, "add", 2, 1),
+                                          op(1, 0, expl(deps), "add", 3, 1), op(0, 0, -1, "add", 4, 1)]}
+    for deps in ([2], [1], [1, 2], [0]):
+        yield {"nm": 5, "ng": 1, "ops": [op(0, 0, -1, "create", init=[(0, 3), (1, 1)]),
+                                          op(0, 0, -1, "promote", 1, 3), op(0, 0, 0, "add", 2, 1),
+                                          op(1, 0, expl(deps), "add", 3, 1), op(0, 0, -1, "add", 4, 1)]}
 
 
 def recreate_family():
@@ -109,14 +232,17 @@ def known(case, impl):
 
 def gen(tier, rng):
     yield from recreate_family()
+    yield from subset_family()
     sysm = list(systematic())
     if tier == "quick":
         rng.shuffle(sysm)
-        yield from sysm[:150]
-        nrand = 350
+        yield from sysm[:120]
+        nrand, nbranch = 250, 220
     else:
         yield from sysm
-        nrand = 1200
+        nrand, nbranch = 1200, 1000
+    for _ in range(nbranch):
+        yield branch_history(rng, tier)
     for _ in range(nrand):
         yield random_history(rng, tier)
 
@@ -196,7 +322,8 @@ def coq_oracle(case, impl):
     return "check %d %s ([%s]%%N)" % (_ng(case), _specs(case), ";".join(obs))
 
 
-STATS = {"steps": 0, "steps_in_fragment": 0, "cases_leaving_fragment": 0}
+STATS = {"steps": 0, "steps_in_fragment": 0, "cases_leaving_fragment": 0, "leaving_steps_judged": 0}
+SUBSET = {}
 
 
 def agree(case, impl, model):
@@ -213,6 +340,14 @@ def agree(case, impl, model):
             continue
         if left:
             return False
+        if b.startswith("OUT;"):
+            # the operation that takes the history out of the fragment: validated against a conflict-free
+            # history, so outcome, resolved dependencies and the state at the dependencies are exact
+            left = True
+            STATS["leaving_steps_judged"] += 1
+            if a.split(";")[:3] != b.split(";")[1:4]:
+                return False
+            continue
         STATS["steps_in_fragment"] += 1
         if b.startswith("nogroup;"):
             # non-create operation on a group that does not exist at the dependencies: the unrepaired code
@@ -249,11 +384,14 @@ def shrink(case):
             if j == i:
                 continue
             o = list(o)
-            if o[2] >= 0:
+            if 0 <= o[2] < HEADSUB:
                 if o[2] == i:
                     o[2] = i - 1
                 elif o[2] > i:
                     o[2] -= 1
+            elif o[2] >= EXPLICIT:
+                m = o[2] - EXPLICIT
+                o[2] = EXPLICIT + ((m & ((1 << i) - 1)) | ((m >> (i + 1)) << i))
             if o[3] == 5:
                 if o[4] == i:
                     ok = False
@@ -264,10 +402,52 @@ def shrink(case):
             yield {"nm": case["nm"], "ng": case["ng"], "ops": new}
 
 
+def _is_manager(entries, member):
+    """entries 'id.mc.lv.ac,...' (or '-'): member is an active manager there"""
+    for tok in entries.split(","):
+        f = tok.split(".")
+        if len(f) == 4 and int(f[0]) == member:
+            return int(f[1]) % 2 == 1 and int(f[2]) == 3
+    return False
+
+
+def subset_stats(cases, impl):
+    """how often the declared dependencies are a strict subset of the heads / another antichain, and how
+    often the author's authority at the dependencies differs from its authority in the merged current state"""
+    st = {"deps_strict_subset_of_heads": 0, "deps_other_than_heads": 0, "accepted_with_deps_other_than_heads": 0,
+          "rejected_with_deps_other_than_heads": 0, "author_manager_only_in_current_state": 0,
+          "author_manager_only_at_dependencies": 0}
+    for i, c in enumerate(cases):
+        if i not in impl:
+            continue
+        try:
+            steps = parse_impl(impl[i])
+        except Exception:
+            continue
+        heads, post = [], []
+        for o, (out, deps, pre, posts, hs) in zip(c["ops"], steps):
+            d = set(_nums(deps))
+            if o[3] not in (0, 5) and d != set(heads):
+                st["deps_other_than_heads"] += 1
+                if d and d < set(heads):
+                    st["deps_strict_subset_of_heads"] += 1
+                st["accepted_with_deps_other_than_heads" if out == "ok" else "rejected_with_deps_other_than_heads"] += 1
+                cur = post[o[1]] if o[1] < len(post) else "-"
+                at_deps, in_cur = _is_manager(pre, o[0]), _is_manager(cur, o[0])
+                if in_cur and not at_deps:
+                    st["author_manager_only_in_current_state"] += 1
+                if at_deps and not in_cur:
+                    st["author_manager_only_at_dependencies"] += 1
+            heads, post = _nums(hs), posts.split("/")
+    return st
+
+
 def distribution(cases, impl):
     outcomes = {}
     kinds = {}
     nops = 0
+    SUBSET.clear()
+    SUBSET.update(subset_stats(cases, impl))
     for i, c in enumerate(cases):
         nops += len(c["ops"])
         for o in c["ops"]:
@@ -282,4 +462,7 @@ def distribution(cases, impl):
     return {"cases": len(cases), "operations": nops, "mean_ops": round(nops / max(1, len(cases)), 1),
             "kinds": {names[k]: v for k, v in sorted(kinds.items())}, "outcomes": dict(sorted(outcomes.items())),
             "concurrent_deps": sum(1 for c in cases for o in c["ops"] if o[2] >= 0),
+            "head_subset_deps": sum(1 for c in cases for o in c["ops"] if HEADSUB <= o[2] < EXPLICIT),
+            "explicit_deps": sum(1 for c in cases for o in c["ops"] if o[2] >= EXPLICIT),
+            "strict_subset_of_heads": dict(SUBSET),
             "fragment": dict(STATS)}
